@@ -49,9 +49,10 @@ pub fn run(ctx: &mut Ctx) -> bool {
             }
         }
         "C06" => {
-            ctx.rule = "Cases are placements with one king per side (kings may be adjacent; legal or not regarding whose turn it is), loaded through from_fen; is_check is asked for BOTH colours and compared with the oracle's attack test (which goes from each enemy man to the king, the engine goes from the king outwards). Families: the complete three-man basis E4 (both kings on every ordered square pair x one further man of every kind and colour on every square), a strided four-man family (attacker + potential blocker), random sparse / dense / kings-close placements. Non-trivial = king on the rim, adjacent kings, an enemy pawn diagonally adjacent to a king (attacking or behind), or a man standing on the line between a king and an enemy slider; distinct by placement.".into();
+            ctx.rule = "Cases are placements with one king per side (kings may be adjacent; legal or not regarding whose turn it is), loaded through from_fen; is_check is asked for BOTH colours and compared with the oracle's attack test (which goes from each enemy man to the king, the engine goes from the king outwards). Families: the complete three-man basis E4 (both kings on every ordered square pair x one further man of every kind and colour on every square), a strided four-man family (attacker + potential blocker), random sparse / dense / kings-close placements; and boards PRODUCED BY THE GENERATOR (they carry last_move / promotion / ordering fields that must not influence the answer): every successor of both generation modes along walks, en passant and promotion placements, and the en passant family with a slider of the capturing side (discovered checks through either vacated square). Non-trivial = king on the rim, adjacent kings, an enemy pawn diagonally adjacent to a king (attacking or behind), or a man standing on the line between a king and an enemy slider; distinct by placement.".into();
             ctx.assumptions = vec!["oracle attack test validated through the published perft totals and the 22 rule positions".into()];
             statics::run_c06(ctx);
+            statics::run_c06_generated(ctx);
         }
         "C14" => {
             ctx.rule = "Cases are placements (legal or not, up to 9 queens / 10 rooks, bishops, knights / 8 pawns a side) with a side to move. Metamorphic oracle: eval(P) == eval(colour-mirror(P)); eval(P with the other side to move) == -eval(P); eval unchanged when castling rights, en passant target, last_move, pawn_promotion, key and ordering value are overwritten; |eval| < 50000. Families: the complete single-piece basis E5 (12 pieces x 64 squares x 25 game-phase weights) and random sparse / dense / queen-heavy placements. Non-trivial = placement not equal to its own colour-mirror; distinct by (placement, side to move).".into();
@@ -112,12 +113,13 @@ pub fn run(ctx: &mut Ctx) -> bool {
             blackbox::run_c08(ctx);
         }
         "C16" => {
-            ctx.rule = "Cases are UCI sessions: 0-25 well-formed commands of earlier traffic (positions with move lists and repetition cycles, go with slices <= 30 ms, ucinewgame, setoption incl. the logging option, isready, ignorable lines; in a third of the cases also the probe's own position line followed by a go), then the probe `position X` + `go` (zero allowance) + `position X` + `go` (40-120 ms) sent twice. Oracle (differential): the zero-allowance bestmove equals that of a fresh process given only the probe; the timed runs' sequences of (depth, nodes, score, first pv move) agree with the fresh process and with each other on their common prefix. Non-trivial = earlier traffic containing a go and either a long move list or the probe's own position line; distinct by session.".into();
+            ctx.rule = "Cases are UCI sessions: 0-25 well-formed commands of earlier traffic (positions with move lists and repetition cycles, go with slices <= 30 ms, ucinewgame, setoption incl. the logging option, isready, ignorable lines; in a third of the cases also the probe's own position line followed by a go), then the probe `position X` + `go` (zero allowance) + `position X` + `go` (40-120 ms) sent twice. Oracle (differential): the zero-allowance bestmove equals that of a fresh process given only the probe; the timed runs' sequences of (depth, nodes, score, first pv move) agree with the fresh process and with each other on their common prefix. A second family plays the normal flow of a game: the engine searches P with a real slice, the game continues with its move and the reply it expected (second pv move), and `position P moves b r` + go must be answered like a fresh engine. In a third of the sessions the probe follows the earlier traffic without a quiescing pause. A difference must reproduce in one (two) further complete attempts. Non-trivial = earlier traffic containing a go and either a long move list or the probe's own position line, or a continuation round; distinct by session.".into();
             ctx.assumptions = vec!["the timed bestmove itself is not compared (it legitimately depends on where the clock cuts)".into()];
             blackbox::run_c16(ctx);
+            blackbox::run_c16_continuation(ctx);
         }
         "C17" => {
-            ctx.rule = "Cases are UCI sessions: after the handshake, a position, then 0-10 lines the engine does not understand (empty, blanks / tabs / unicode spaces, random words, `uci` again, `stop`, `ponderhit`, `debug on`, wrong-case commands, 200-600 character lines, unicode), real commands written with surplus whitespace, `isready` in between (must always give `readyok`), the zero-allowance answer re-asked mid-way (must be unchanged), a `go` with unknown tokens at key boundaries and a real 30-90 ms slice (must take the planned time and answer legally), then one of seven endings: quit when idle, quit right after go, stdin closed when idle / right after go (pending bestmove must still be printed) / before `uci` / after a blank line / after an unterminated whitespace fragment; the process must end within slice + 1 s (+1.5 s grace), observed, not killed. Non-trivial = >= 3 ignorable lines or an end-of-input ending; distinct by session.".into();
+            ctx.rule = "Cases are UCI sessions: after the handshake, a position, then 0-10 lines the engine does not understand (empty, blanks / tabs / unicode spaces, random words, `uci` again, `stop`, `ponderhit`, `debug on`, wrong-case commands, 200-600 character lines, unicode), real commands written with surplus whitespace, `isready` in between (must always give `readyok`), the zero-allowance answer re-asked mid-way (must be unchanged), a `go` with unknown tokens at key boundaries and a real 30-90 ms slice (must take the planned time and answer legally), then one of eight endings: quit when idle, quit right after go, stdin closed when idle / right after go (pending bestmove must still be printed) / before `uci` / after a blank line / after an unterminated whitespace fragment / after an `isready` without line terminator (must still be answered); ignorable lines include words that merely start with a command name (`gobble`, `positional`, `quitting`); the process must end within slice + 1 s (+1.5 s grace), observed, not killed. Non-trivial = >= 3 ignorable lines or an end-of-input ending; distinct by session.".into();
             ctx.assumptions = vec!["outside the generated domain on purpose: invalid UTF-8, a bare `position`, non-numeric clock values, movestogo 0 (the statement does not list them as tolerated)".into()];
             blackbox::run_c17(ctx);
         }
